@@ -878,6 +878,23 @@ class Grammar:
             return self.b.fn_ir(ir["fn"], ir.get("targs") or {})
         return ir
 
+    def open(self, ir, depth=0):
+        """Look through ctx/cut wrappers and through references to helper parsers whose body is a single parser expression
+        (`fn operator_end(i) { alt((multispace1, eof)).parse_next(i) }` is the same parser as the expression)."""
+        while depth < 8:
+            if ir["t"] in ("ctx", "cut"):
+                ir = ir["p"]
+            elif ir["t"] == "ref":
+                fb = self.deref(ir)
+                if fb["t"] == "fnbody" and not fb["steps"] and not fb["unknown"] and fb["tail"] is not None:
+                    ir = fb["tail"]
+                    depth += 1
+                else:
+                    return ir
+            else:
+                return ir
+        return ir
+
     def body_seq(self, fb):
         """fnbody -> ordered list of parser IRs applied to the input."""
         out = [s["p"] for s in fb["steps"]]
@@ -897,6 +914,15 @@ class Grammar:
                 q = q["p"]
             while pat["k"] in ("typed", "ref"):
                 pat = pat["pat"]
+            while True:
+                # preceded(a, b) / terminated(a, b) yield the value of the one kept parser
+                kept1 = [i["p"] for i in q["items"] if i["keep"]] if q["t"] == "seq" and not q.get("tuple") else None
+                if kept1 is not None and len(kept1) == 1:
+                    q = kept1[0]
+                    while q["t"] in ("ctx", "cut"):
+                        q = q["p"]
+                else:
+                    break
             if pat["k"] == "ident":
                 out[pat["name"]] = q
             elif pat["k"] == "tuple":
